@@ -13,6 +13,7 @@ FACETS = {
     "C06": "TN",
     "C07": "CSEVRGK",
     "C08": "VRFK",
+    "C13": "VRFK",
     "C14": "VRSCK",
     "C15": "VRSCTNK",
     "C16": "VRSEK",
@@ -24,7 +25,7 @@ FACETS = {
 def clause_props(K, clause, cfg):
     """Properties an obligation counts for."""
     mode = cfg.get("mode", "plain")
-    if clause.startswith(("pre[", "cover.", "canary")):
+    if clause.startswith(("pre[", "cover.", "canary", "loop.")):
         return {"*"} | _ALL
     out = set()
     if clause.startswith("C."):
